@@ -195,11 +195,11 @@ class ModGen:
             self.bind(n, h)
 
     def st_del(self):
-        """top-level `del` of names bound so far by assignment / def / class / foreign import (also `del a, b` and
-        delete-then-rebind).  Not generated (clean tree gets them wrong, reported as candidate defects): deleting an
-        own-package re-export; parenthesised targets `del (a, b)`."""
+        """top-level `del` of names bound so far by assignment / def / class / foreign import / own-package `from`
+        import: `del a`, `del a, b`, through a parenthesised tuple or a list target (`del (a, b)`, `del [a]`,
+        `del (a,), b`), delete-then-rebind (also by importing again)."""
         rng = self.rng
-        ok = {"def", "async", "class", "assign", "tuple", "ann", "import_foreign"}
+        ok = {"def", "async", "class", "assign", "tuple", "ann", "import_foreign", "import_own"}
         cands = [n for n, h in self.bound.items() if h and h <= ok and n != "__all__" and n.isidentifier()]
         if self.allv is not None:
             cands = [n for n in cands if n not in self.allv]     # keep the module star-importable
@@ -210,15 +210,31 @@ class ModGen:
             cands = [n] if (self.allv is None or n not in self.allv) else []
             if not cands:
                 return
+        own = [n for n in cands if "import_own" in self.bound[n]]
         k = 1 if rng.random() < 0.7 else 2
         ns = rng.sample(cands, min(k, len(cands)))
-        self.emit("del " + ", ".join(ns))
+        if own and rng.random() < 0.5 and not set(ns) & set(own):
+            ns[0] = rng.choice(own)
+        r = rng.random()
+        if r < 0.70:
+            self.emit("del " + ", ".join(ns))
+        elif r < 0.82:
+            self.emit("del (%s)" % "".join(n + ", " for n in ns).rstrip(" ") if len(ns) == 1 else "del (%s)" % ", ".join(ns))
+        elif r < 0.92:
+            self.emit("del [%s]" % ", ".join(ns))
+        else:
+            self.emit("del (%s,)%s" % (ns[0], "".join(", " + n for n in ns[1:])))
+        was_own = {n: ("import_own" in self.bound.get(n, ())) for n in ns}
         for n in ns:
             self.bound.pop(n, None)
         if rng.random() < 0.35:
             n = ns[0]
-            self.emit(rng.choice(["%s = [9]", "def %s():\n    return 9", "class %s:\n    pass"]) % n)
-            self.bind(n, "assign")
+            if was_own[n] and self.kind == "init" and rng.random() < 0.5:
+                self.emit("from .sub import sx as %s" % n)
+                self.bind(n, "import_own")
+            else:
+                self.emit(rng.choice(["%s = [9]", "def %s():\n    return 9", "class %s:\n    pass"]) % n)
+                self.bind(n, "assign")
 
     def st_ann(self):
         n = _anyname(self.rng, 0.1)
